@@ -677,8 +677,10 @@ def reduce_dim(f, reducedef, fuzzydim=True, metakeys=_metakeys):
         if dimkey not in outf.dimensions:
             outdim = outf.createDimension(dimkey, vout.shape[axis])
             outdim.setunlimited(inf.dimensions[dimkey].isunlimited())
+        # (the type of the result: the mean of integers is not an integer)
         nvar = outf.variables[varkey] = PseudoNetCDFMaskedVariable(
-            outf, varkey, var.dtype.char, var.dimensions, values=vout)
+            outf, varkey, np.asarray(vout).dtype.char, var.dimensions,
+            values=vout)
         for k in var.ncattrs():
             setattr(nvar, k, getattr(var, k))
 
